@@ -112,6 +112,7 @@ class Comp(N):
         self.usage = _g(e, 'usage')
         self.seq = int(_g(e, 'seq'))
         self.name = _g(e, 'name')
+        self.repeat = _g(e, 'repeat')
         self.children = sorted([Ele(self, c) for c in e.findall('element')], key=lambda k: k.seq)
 
 
